@@ -16,6 +16,9 @@ import (
 	multiproof "github.com/crate-crypto/go-ipa"
 )
 
+var usedMP multiproof.MultiProof
+var usedIP ipa.IPAProof
+
 func init() {
 	register("sqrt", func(t []string) string {
 		x := fpOfHex(t[1])
@@ -73,6 +76,30 @@ func init() {
 		}
 		var buf bytes.Buffer
 		if err := ip.Write(&buf); err != nil {
+			return "WRITE-ERR"
+		}
+		return "OK " + hexs(buf.Bytes())
+	})
+	// the same, into proof values that are REUSED across calls (whatever earlier reads, complete or
+	// failed half-way, left in them): deserialisation is a function of the bytes read
+	register("mprdu", func(t []string) string {
+		r := newPlanReader(t[1], unhex(t[2]))
+		if err := usedMP.Read(r); err != nil {
+			return "ERR"
+		}
+		var buf bytes.Buffer
+		if err := usedMP.Write(&buf); err != nil {
+			return "WRITE-ERR"
+		}
+		return "OK " + hexs(buf.Bytes())
+	})
+	register("ipardu", func(t []string) string {
+		r := newPlanReader(t[1], unhex(t[2]))
+		if err := usedIP.Read(r); err != nil {
+			return "ERR"
+		}
+		var buf bytes.Buffer
+		if err := usedIP.Write(&buf); err != nil {
 			return "WRITE-ERR"
 		}
 		return "OK " + hexs(buf.Bytes())
